@@ -92,6 +92,11 @@ def check_group(g, rng, n, found, stats, tol=1e-9):
                         xs[2] = mag * np.sign(xs[2] if xs[2] != 0 else 1.0)
                     elif rot is not None and g.algebra in ("so3", "se3", "se23"):
                         xs[rot] = xs[rot] / np.linalg.norm(xs[rot]) * mag
+                        if it % 3 == 2:
+                            # rotation EXACTLY about a coordinate axis (either sign), 120..240 degrees: the matrix -> quaternion
+                            # extraction then has exactly-zero pivots in the branches it must not take
+                            ax = np.zeros(3); ax[(it // 3) % 3] = 1.0 if (it // 9) % 2 == 0 else -1.0
+                            xs[rot] = ax * [2.2, 2.8, np.pi, 3.6, 4.1][(it // 3) % 5]
                     else:
                         xs = x * 0.7
                     if g.name == "SO3Euler" and mag > 3.0:
